@@ -57,18 +57,19 @@ def KState.setDetachedRow (s : KState) (k : Key) (d : Bool) : KState :=
     let s := s.modify k fun n => { n with detached := d }
     if n.detached ≠ d then s.flagReadySinks k else s
 
-/-- `UPDATE node SET creator = ?, detached = ?` on one row, with the creator-kind trigger and the
-CHECK `creator IS NOT NULL OR detached`. -/
-def KState.setCreator (s : KState) (k : Key) (c : Option Key) (d : Bool) : M KState := do
+/-- The creator-kind triggers and the CHECKs `creator IS NOT NULL OR detached`, `creator != i`. -/
+def KState.creatorAllowed (s : KState) (k : Key) (c : Option Key) (d : Bool) : Bool :=
   match c with
   | some ck =>
-    match s.find? ck with
-    | some cn => if creatorKindOk k.kind cn.key.kind then pure () else throw .integrity
-    | none => throw .integrity
-    if ck = k then throw .integrity
-  | none => if d then pure () else throw .integrity
-  let s := s.modify k fun n => { n with creator := c }
-  pure (s.setDetachedRow k d)
+    (match s.find? ck with
+     | some cn => creatorKindOk k.kind cn.key.kind
+     | none => false) && ck ≠ k
+  | none => d
+
+/-- `UPDATE node SET creator = ?, detached = ?` on one row. -/
+def KState.setCreator (s : KState) (k : Key) (c : Option Key) (d : Bool) : M KState :=
+  if s.creatorAllowed k c d then pure ((s.modify k fun n => { n with creator := c }).setDetachedRow k d)
+  else throw .integrity
 
 /-- All recursive products of `k` (`UNION` recursion: terminates on cycles). -/
 def KState.descendants (s : KState) (k : Key) : List Key :=
